@@ -1,0 +1,57 @@
+//go:build verif
+
+package collector
+
+import (
+	"bytes"
+	"time"
+
+	"github.com/vmware/go-ipfix/pkg/entities"
+)
+
+// This file is compiled only with the "verif" build tag. It exposes a few
+// unexported entry points of the collecting process to an external
+// verification harness. It adds no behaviour of its own.
+
+// VerifClock and VerifTimer export the unexported clock interfaces so that an
+// external clock implementation can be injected.
+type VerifClock = clock
+type VerifTimer = timer
+
+// VerifInitCollectingProcess is InitCollectingProcess with an injected clock.
+func VerifInitCollectingProcess(input CollectorInput, c VerifClock) (*CollectingProcess, error) {
+	return initCollectingProcess(input, c)
+}
+
+// VerifDecodePacket presents one message to the decoder, exactly as the TCP and
+// UDP handlers do. A successfully decoded message is also sent on the message
+// channel, so the caller must be draining GetMsgChan().
+func (cp *CollectingProcess) VerifDecodePacket(packet *bytes.Buffer, exportAddress string) (*entities.Message, error) {
+	return cp.decodePacket(packet, exportAddress)
+}
+
+// VerifTemplateInfo is a read-only copy of one stored template.
+type VerifTemplateInfo struct {
+	ObsDomainID uint32
+	TemplateID  uint16
+	Elements    []entities.InfoElement
+	ExpiryTime  time.Time
+	Timer       VerifTimer
+}
+
+// VerifTemplates returns a copy of the template table, taken under the read lock.
+func (cp *CollectingProcess) VerifTemplates() []VerifTemplateInfo {
+	cp.mutex.RLock()
+	defer cp.mutex.RUnlock()
+	res := make([]VerifTemplateInfo, 0)
+	for dom, m := range cp.templatesMap {
+		for id, tpl := range m {
+			info := VerifTemplateInfo{ObsDomainID: dom, TemplateID: id, ExpiryTime: tpl.expiryTime, Timer: tpl.expiryTimer}
+			for _, ie := range tpl.ies {
+				info.Elements = append(info.Elements, *ie)
+			}
+			res = append(res, info)
+		}
+	}
+	return res
+}
